@@ -100,13 +100,13 @@ Section Steps.
       - intros j Hj Hk. unfold sync_ok. rewrite po_sync, po_cons, po_emit. apply Isy; auto.
       - intros a a' Hlt Ha' Hact. unfold act in Hact. rewrite po_active in Hact. rewrite po_next. apply Ia; auto.
       - intros a j Haj Hjn Hj. rewrite po_next in Hjn. rewrite po_active, po_cons, po_emit. apply (Ib a); auto.
-      - intros a x Hax Hxn Hx. rewrite po_next in *. apply Ic; auto.
+      - intros a x Hax Hxn Hx. rewrite !po_next in *. apply Ic; auto.
       - intros a Ha. destruct (Nat.eq_dec a i) as [->|Hne]; [exact Hsl|].
         specialize (Isl a Ha). unfold PChunkerInv.sl in *. rewrite po_pc by exact Hne.
         rewrite po_next, po_cons, po_emit, po_sync. exact Isl.
       - intros j Hjk Hj. cbn in Hjk. rewrite po_active, po_cons, po_emit. apply Ikb; auto.
       - exact Iout.
-      - intros Hd. destruct (Icol Hd) as [Hk [HA|HB]]. split; [exact Hk|].
+      - intros Hd. destruct (Icol Hd) as [Hk [HA|HB]]; (split; [exact Hk|]).
         + left. unfold PChunkerInv.stateA in *. cbn [p_c s' setw] in *. rewrite po_onchain, po_frontier. exact HA.
         + right. unfold PChunkerInv.stateB in *. cbn [p_c s' setw] in *.
           destruct HB as (a & Ha & Ho & Hn & Hn' & Hf). exists a.
